@@ -281,7 +281,7 @@ static void build_catalogue(void)
 		F("q-cl-dup-diff", M_GET, SL CL5 "Content-Length: 6\r\n" END "hello!"),
 		F("q-ch-bad-size", M_GET, SL TEC END "zz\r\nhello\r\n0\r\n\r\n"),
 		F("q-404", M_GET, "HTTP/1.1 404 Not Found\r\nContent-Length: 4\r\n" END "nope"),
-		F("q-no-length-with-connection-field", M_GET, SL "Connection: keep-alive\r\n" END),
+		F("no-length-with-connection-field", M_GET, SL "Connection: keep-alive\r\n" END),
 #undef F
 	};
 	for (size_t i = 0; i < sizeof firsts / sizeof firsts[0]; i++) {
@@ -540,7 +540,7 @@ static void check_against_reference(const struct stream *st, size_t avail, const
 				fail_key("wrong-body", st, r, "reference body %zu bytes (framing %d), callback got %s", m->blen, (int)m->framing, ren);
 			/* framing decides where the message ends: a length-delimited response must be complete
 			 * as soon as its last byte has been delivered, not only when the peer closes */
-			if (m->framing != R9_F_CLOSE && o->sent_before_eof) {
+			if (m->framing != R9_F_CLOSE && o->sent_before_eof && ok && o->body.n == m->blen) {
 				int seg = 0;
 				while (seg < ncuts && cuts[seg] < e->end_off) seg++;
 				MC_COUNT("oracle_completion_time");
